@@ -454,6 +454,10 @@ class Plan:
             # restricted re-entrancy: the _pre_attach hook at event index spec[1] first attaches another root node
             # to its parent argument (a parent that gives every new child a title sibling); it never raises
             self.evict_at = self.spec[1]
+        elif t == "tombstone":
+            # restricted re-entrancy inside a children deletion / assignment: the _post_detach hook at event index
+            # spec[1] attaches another root node to the parent the node has just left (a tombstone); it never raises
+            self.evict_at = self.spec[1]
         elif t == "rehome":
             # restricted re-entrancy, group hooks: the _pre_detach_children hook at event index spec[1] moves the
             # first of the children it is told about below another node (an "archive"); it never raises
@@ -463,7 +467,7 @@ class Plan:
 
     def fires(self, i, kind, n):
         t = self.t
-        if t in ("none", "evict", "rehome", "admit"):
+        if t in ("none", "evict", "rehome", "admit", "tombstone"):
             return False
         if t == "persist":
             return kind == self.kind and (self.label is None or self.label == n)
@@ -527,6 +531,17 @@ class Rec:
                 self.evicted.append((i, victims[0]))
                 self.nodes[victims[0]].parent = None
         elif self.plan.t == "admit" and i == self.plan.evict_at and kind == "pre_attach" and isinstance(al, int) and isinstance(nl, int):
+            now = snap if snap is not None else self.snapshot()
+            top = al
+            steps = 0
+            while now[top][0] is not None and steps <= len(now):
+                top = now[top][0]
+                steps += 1
+            guests = [x for x in range(len(now)) if now[x][0] is None and x != nl and x != top]
+            if guests:
+                self.evicted.append((i, guests[0]))
+                self.nodes[guests[0]].parent = self.nodes[al]
+        elif self.plan.t == "tombstone" and i == self.plan.evict_at and kind == "post_detach" and isinstance(al, int) and isinstance(nl, int):
             now = snap if snap is not None else self.snapshot()
             top = al
             steps = 0
@@ -732,6 +747,8 @@ def mon_c02(ctx, ex):
         return mon_c02_evict(ctx, ex)
     if ex.planspec[0] == "admit":
         return mon_c02_admit(ctx, ex)
+    if ex.planspec[0] == "tombstone":
+        return True  # judged by the hook-protocol monitor only
     if ex.faults or ex.planspec[0] != "none":
         return True
     fam = base_family(ex.family)
@@ -934,6 +951,8 @@ def mon_c16(ctx, ex):
         return True
     if ex.planspec[0] in ("evict", "admit"):
         return mon_c16_observations(ctx, ex)
+    if ex.planspec[0] == "tombstone":
+        return mon_c16_group_wrap(ctx, ex)
     ctx.count("mon.C16.automaton")
     faulted = {i for i, _, _ in ex.faults}
     m = len(ev)
@@ -1050,6 +1069,33 @@ def mon_c16(ctx, ex):
             return False
         if ex.call[0] == "setparent" and ex.faults[0][1] in POST_KINDS:
             ctx.count("C16.R5.post_fault_kept")
+    return True
+
+
+def mon_c16_group_wrap(ctx, ex):
+    """Children deletion / assignment while a per-child _post_detach hook gives the old parent a new child (a
+    tombstone): the per-child calls are still wrapped in the group hooks, and nothing raises (assertion mode off)."""
+    if not ex.evicted or ex.call[0] not in ("delchildren", "setchildren"):
+        return True
+    ctx.count("mon.C16.group_wrap_reentrant")
+    n = ex.call[1]
+    kinds = [e[0] for e in ex.events]
+    prob = None
+    if ex.outcome != "returned":
+        prob = "call raised %s" % ex.outcome
+    elif not kinds or kinds[0] != "pre_detach_children":
+        prob = "first hook is not _pre_detach_children"
+    else:
+        last_detach = max(i for i, e in enumerate(ex.events) if e[0] == "post_detach" and e[2] == n)
+        later = [i for i, e in enumerate(ex.events) if e[0] == "post_detach_children" and e[1] == n and i > last_detach]
+        if not later:
+            prob = "_post_detach_children not called after the last per-child detach"
+        elif ex.call[0] == "setchildren" and ex.call[2] and not ("pre_attach_children" in kinds[later[0]:] and kinds[-1] == "post_attach_children"):
+            prob = "attach group hooks missing"
+    if prob:
+        ctx.violation("C16/R6-group-wrap/reentrant-hook/%s" % ex.call[0], "hook-protocol", ex.case(), expected="per-child calls wrapped in the *_children hooks, no exception",
+                      observed={"problem": prob, "events": _jsonable(ex.events[:40]), "exc": ex.excrepr})
+        return False
     return True
 
 
